@@ -12,6 +12,7 @@ package w
 
 import (
 	"fmt"
+	"io"
 	"net"
 	"os"
 	"sort"
@@ -210,13 +211,17 @@ func (nc *netC) clean() bool {
 			return false // a leave through seconds of delay may not get out before the process ends
 		}
 	}
-	return nc.loss == 0 && len(nc.cut) == 0
+	// one-way delays above 200 ms put the round trip beyond memberlist's 500 ms probe
+	// timeout: peers then declare a live member dead by mistake, and "connected" no longer
+	// describes the network a leave happens in
+	return nc.loss == 0 && len(nc.cut) == 0 && nc.delayMs <= 200
 }
 
 type nodeC struct {
 	name, ip string
 	s        *serf.Serf
 	tr       *simnet.Transport
+	gotIntent *intentLog
 	up       bool
 	truth    string // never, running, left-clean, crashed-clean, ambiguous
 	leaving  bool
@@ -264,6 +269,9 @@ func execC01(r *Run) {
 		if verbose {
 			conf.LogOutput = prefixWriter{fmt.Sprintf("SERF n%d t=%v ", i, time.Since(start))}
 		}
+		// which leave intents this incarnation has been handed (serf logs each one)
+		nd.gotIntent = &intentLog{inner: conf.LogOutput, seen: map[string]bool{}}
+		conf.LogOutput = nd.gotIntent
 		conf.ProtocolVersion = 5
 		conf.ReconnectInterval = ms("recon")
 		conf.ReapInterval = 5 * time.Second
@@ -500,6 +508,13 @@ func execC01(r *Run) {
 			nc.mu.Lock()
 			nc.delayMs = s.K
 			nc.mu.Unlock()
+			if s.K > 200 {
+				for _, x := range nodes {
+					if x.leaving {
+						x.leaveDirty = true
+					}
+				}
+			}
 		case "uev":
 			if nd.up && !nd.leaving {
 				nd.s.UserEvent("bg", []byte(strconv.Itoa(idx)), false)
@@ -549,6 +564,37 @@ func execC01(r *Run) {
 		mu.Lock()
 		defer mu.Unlock()
 		observe()
+		// Running nodes form one cluster only if knowledge links them: o and x are linked
+		// when one of them lists the other, directly or through other running nodes. Two groups that never heard of each other (every
+		// join between them fell into a partition and nobody retried) are two clusters, and
+		// the property says nothing about their views of each other.
+		comp := make([]int, len(nodes))
+		for i := range comp {
+			comp[i] = i
+		}
+		var find func(int) int
+		find = func(i int) int {
+			for comp[i] != i {
+				comp[i] = comp[comp[i]]
+				i = comp[i]
+			}
+			return i
+		}
+		// (a link is something the protocol will act on: o lists x as alive, leaving or
+		// failed - it gossips with it or keeps trying to reconnect. An old incarnation held
+		// as "left" is not contacted again, so it links nothing.)
+		for o, on := range nodes {
+			if !on.up {
+				continue
+			}
+			for _, m := range on.s.Members() {
+				for x, xn := range nodes {
+					if x != o && xn.up && xn.name == m.Name && m.Status != serf.StatusLeft && m.Status != serf.StatusNone {
+						comp[find(o)] = find(x)
+					}
+				}
+			}
+		}
 		for o, on := range nodes {
 			if !on.up {
 				continue
@@ -567,6 +613,10 @@ func execC01(r *Run) {
 					// mid-leave at the end of the plan: wait for it to finish
 					return false, fmt.Sprintf("n%d is still leaving", x)
 				case xn.up:
+					if find(o) != find(x) {
+						r.Probe("separate-clusters-never-linked")
+						continue
+					}
 					if !listed || st != serf.StatusAlive {
 						return false, fmt.Sprintf("n%d lists running n%d as %v (listed=%v)", o, x, st, listed)
 					}
@@ -576,6 +626,9 @@ func execC01(r *Run) {
 					}
 				case xn.truth == "left-clean":
 					if st != serf.StatusLeft {
+						if !on.gotIntent.has(xn.name) {
+							return false, fmt.Sprintf("n%d lists n%d, which left gracefully while connected, as %v; the leave intent never reached n%d", o, x, st, o)
+						}
 						return false, fmt.Sprintf("n%d lists n%d, which left gracefully while connected, as %v", o, x, st)
 					}
 				case xn.truth == "crashed-clean":
@@ -640,11 +693,57 @@ func execC01(r *Run) {
 			// recorded under C02/C03 (see known_findings.txt)
 			key = "C01 running-member-stuck-leaving"
 		}
+		// one class per kind of disagreement, so that minimisation cannot drift from one
+		// kind to another
+		switch {
+		case key != "C01 no-convergence":
+		case strings.Contains(why, "lists running"):
+			key = "C01 running-member-not-alive"
+		case strings.Contains(why, "left gracefully while connected") && strings.Contains(why, "the leave intent never reached"):
+			// gossip spent its retransmissions on other (dead) members: known_findings.txt
+			key = "C01 graceful-leave-not-left intent-never-delivered"
+		case strings.Contains(why, "left gracefully while connected"):
+			key = "C01 graceful-leave-not-left"
+		case strings.Contains(why, "lists crashed"):
+			key = "C01 crashed-member-not-failed"
+		case strings.Contains(why, "no longer lists"):
+			key = "C01 member-forgotten"
+		case strings.Contains(why, "lists departed"):
+			key = "C01 departed-member-alive"
+		case strings.Contains(why, "still leaving"):
+			key = "C01 leave-never-completes"
+		}
 		r.Fail("views-did-not-converge", key, "%v after the network healed and went quiet (bound %v): %s; truth: %s; views: %s", time.Since(start), bound, why, strings.Join(truth, " "), strings.Join(views, " "))
 		return
 	}
 	r.Probes["settle-seconds"] += int(settled / time.Second)
 	r.State(strings.Join(truth, ","))
+}
+
+// intentLog notes the "messageLeaveType: <node>" debug lines of one serf instance.
+type intentLog struct {
+	mu    sync.Mutex
+	inner io.Writer
+	seen  map[string]bool
+}
+
+func (l *intentLog) Write(b []byte) (int, error) {
+	const tag = "serf: messageLeaveType: "
+	if i := strings.Index(string(b), tag); i >= 0 {
+		l.mu.Lock()
+		l.seen[strings.TrimSpace(string(b[i+len(tag):]))] = true
+		l.mu.Unlock()
+	}
+	return l.inner.Write(b)
+}
+
+func (l *intentLog) has(name string) bool {
+	if l == nil {
+		return false
+	}
+	l.mu.Lock()
+	defer l.mu.Unlock()
+	return l.seen[name]
 }
 
 type prefixWriter struct{ p string }
